@@ -44,6 +44,7 @@ type c10Rec struct {
 	off     int64
 	epoch   int32
 	discard bool
+	kind    int // c10.live: 0 ordinary, 1 tombstone (empty value), 2 malformed JSON
 }
 
 func (r c10Rec) record() *kgo.Record {
@@ -723,6 +724,9 @@ func genC10(w *bufio.Writer, rng *hx.Rng, tier string) {
 
 	// ---- the real plugin end to end against an in-process group broker, stopped while records are in flight
 	genC10Stop(w, rng, thorough)
+
+	// ---- real pipeline + real plugin + group broker: records the pipeline rejects at the input
+	genC10Live(w, rng, thorough)
 
 	// ---- the real pipeline in spread mode
 	npipe := 700
